@@ -120,6 +120,25 @@ pub fn run(ctx: &Ctx) -> Outcome {
     let mut rep = run_sharded(ctx, |w, nw, rep| {
         let ls = LangSet::new();
         let mut rng = Rng::derive(ctx.seed, "C07", w as u64);
+        // bounded exhaustive part: every stream of up to 4 (thorough: 5) tokens over the small alphabet of each language
+        let (n_small, cut) = streams::for_each_small_stream(&ls.lex, if ctx.quick() { 4 } else { 5 }, w, nw, &|| ctx.elapsed() > ctx.budget_s * 0.4, &mut |code, toks| {
+            let (ja, jc, fail) = check_stream(&ls, code, toks);
+            rep.eval(streams::stream_hash(code, toks) ^ 0xe4, ja + jc > 0);
+            rep.add("a_occurrences_revalidated", ja as u64);
+            rep.add("c_outside_words_checked", jc as u64);
+            if let Some(msg) = fail {
+                let clause = &msg[..3];
+                rep.violation(
+                    &format!("{}:{}", code, clause),
+                    jobj! {"kind" => "stream", "lang" => code, "tokens" => streams::stream_json(toks)},
+                    format!("[{}] {} | stream: {}", code, msg, streams::show_stream(toks)),
+                );
+            }
+        });
+        rep.add("exhaustive_small_alphabet_streams", n_small);
+        if cut {
+            rep.count("exhaustive_enumeration_cut_by_budget");
+        }
         for i in 0..(n_streams / nw as u64) {
             if i % 256 == 0 && ctx.elapsed() > ctx.budget_s * 0.55 {
                 break;
@@ -209,7 +228,7 @@ pub fn run(ctx: &Ctx) -> Outcome {
     if !ctx.quick() {
         super::legs::fuzz_leg(ctx, &mut rep, 45);
     }
-    let rule = "cases = (a,c) grammar-noise token streams (half with whitespace tokens, random case and hints) scanned at threshold 0: every non-decimal occurrence is re-validated on exactly its own words, every uncovered unflagged word must fail validation; (b) phrases = speller output (cardinal variants, ordinal inflections), their one-word mutations and random 1..6-word sequences over the number vocabulary: whenever the validator accepts, the scanner (no annotation) must report exactly one occurrence with the same digits; non-trivial = at least one occurrence or outside word judged / the phrase validated";
+    let rule = "cases = every stream of 1..4 (thorough 1..5) tokens over a 16-word alphabet per language (counter exhaustive_small_alphabet_streams); (a,c) grammar-noise token streams (half with whitespace tokens, random case and hints) scanned at threshold 0: every non-decimal occurrence is re-validated on exactly its own words, every uncovered unflagged word must fail validation; (b) phrases = speller output (cardinal variants, ordinal inflections), their one-word mutations and random 1..6-word sequences over the number vocabulary: whenever the validator accepts, the scanner (no annotation) must report exactly one occurrence with the same digits; non-trivial = at least one occurrence or outside word judged / the phrase validated";
     finish(ctx, rep, rule, &["decimal occurrences are outside clause (a) as in the statement", "tokens flagged not-a-number-part by a hint count as set aside"], vec![])
 }
 
